@@ -163,7 +163,14 @@ func die(format string, a ...interface{}) {
 // splitmix64: the single PRNG every generator draws from
 type rng struct{ s uint64 }
 
-func newRng(seed uint64) *rng { return &rng{s: seed*0x9E3779B97F4A7C15 + 0x1234567} }
+// the state is a hash of the seed: with a linear map consecutive seeds gave shifted copies of one stream,
+// which re-synchronise after a few draws (seeds 1..4 once produced identical C17 histories)
+func newRng(seed uint64) *rng {
+	z := seed*0x9E3779B97F4A7C15 + 0x1234567
+	z = (z ^ (z >> 30)) * 0xBF58476D1CE4E5B9
+	z = (z ^ (z >> 27)) * 0x94D049BB133111EB
+	return &rng{s: z ^ (z >> 31)}
+}
 func (r *rng) u64() uint64 {
 	r.s += 0x9E3779B97F4A7C15
 	z := r.s
